@@ -110,7 +110,7 @@ fn coverage_keys(scn: &Scenario, cov: &mut BTreeMap<String, u64>) {
                     TSpec::Group { .. } => "group".to_string(),
                     TSpec::MutRefs { kind, .. } => format!("mutrefs-{:?}", kind),
                     TSpec::Exposed { .. } => "exposed-owned-members".to_string(),
-                    TSpec::Slice { kind, boxed, poison, .. } => format!("{}slice-{}-{:?}", if *poison { "poisonable-" } else { "" }, if *boxed { "box" } else { "vec" }, kind),
+                    TSpec::Slice { kind, boxed, poison, array, .. } => format!("{}slice-{}-{:?}", if *poison { "poisonable-" } else { "" }, if *array { "array" } else if *boxed { "box" } else { "vec" }, kind),
                     TSpec::OnData { kind, poison, from, unchecked, .. } => format!("{}{}-{:?}", if *poison { "poisonable-" } else { "" }, if *unchecked { "new_unchecked" } else if *from { "from" } else if *kind == CollKind::Ref { "new" } else { "new_ref" }, kind),
                 };
                 *cov.entry(format!("{}/{:?}", kind, a.api)).or_insert(0) += 1;
